@@ -94,6 +94,9 @@ def gen_c13(tier, rng):
                 for v2 in (bytes(3), proto.rand_bytes(rng, 2) + b"\0", b"\0" + proto.rand_bytes(rng, 2), proto.rand_bytes(rng, 128), proto.rand_bytes(rng, 255)):
                     ops.append("bld if %s %s %s" % (prior, proto.hexs(proto.rand_bytes(rng, n)), proto.hexs(v2)))
                 ops.append("bld if %s %s %s" % (prior, proto.hexs(bytes(n)), proto.hexs(proto.rand_bytes(rng, 4))))
+                # vendor data of 256 bytes and more (the high byte of its length field is in use) with even and odd stream-id counts
+                for vn in (256, 300, 512, 0x1234):
+                    ops.append("bld if %s %s %s" % (prior, proto.hexs(proto.rand_bytes(rng, n)), proto.hexs(b"\xEE" * vn)))
         cases.append(Case("c13", ops, True, ("if", "lists"), meta={"kind": "if"}))
     # the largest list the API type admits (uint16 count)
     cases.append(Case("c13", ["bld if default %s 616263" % ("11" * 65535), "bld if default %s 616263" % ("22" * 65534)], True, ("if", "max-count"),
@@ -119,6 +122,13 @@ def gen_c13(tier, rng):
                         chain.append(proto.hexs(proto.rand_bytes(rng, rng.choice([0, 1, 8, 12, 64, rng.randrange(0, 200)]))))
                 ops.append("bld %s %s %s" % (k, prior, " ".join(chain)))
             cases.append(Case("c13c", ops, True, (k, "chain"), meta={"kind": k}))
+    for prior in prior_objects(rng, "cm"):
+        ops = []
+        for ln in (8, 30, 200):
+            first = [proto.hexs(b"\x7A" * ln)] * 4 + [proto.hexs(b"\xEE" * ln)]
+            second = [proto.hexs(text(rng, rng.randrange(0, 4))) for _x in range(4)] + [proto.hexs(b"")]
+            ops.append("bld cm %s %s" % (prior, " ".join(first + second)))
+        cases.append(Case("c13c", ops, True, ("cm", "chain", "long-then-empty-vendor"), meta={"kind": "cm"}))
     return cases
 
 
